@@ -105,4 +105,38 @@ def _same_struct(a, b, rtol):
         b = np.asarray(b, dtype=float)
     except Exception:  # noqa
         return True
-    return close(a, b, rtol=max(rtol, 1e-12), atol=1e-12 if rtol == 0 else 1e-6)
+    return close(a, b, rtol=max(rtol, 1e-12), atol=1e-12 if rtol == 0 else rtol)
+
+
+def layout_variants_agree(REC, prop, fname, f, X, args=(), kwargs=None, make_kwargs=None, rtol=0.0):
+    """Memory layout is not part of a network: the result for a Fortran-ordered copy, for a strided view and for a
+    slice of a 3-D stack must be what the routine returns for the C-contiguous array.  ``make_kwargs`` (callable)
+    builds fresh keyword arguments for every call (e.g. a fresh seeded RNG)."""
+    def kw():
+        return make_kwargs() if make_kwargs else (kwargs or {})
+    X = np.asarray(X)
+    try:
+        ref = f(np.ascontiguousarray(X).copy(), *args, **kw())
+    except CaseTimeout:
+        raise
+    except Exception:  # noqa
+        return
+    n0, n1 = X.shape[:2]
+    big = np.zeros((2 * n0, 2 * n1) + X.shape[2:], dtype=X.dtype)
+    big[::2, ::2] = X
+    variants = [('F', np.asfortranarray(X)), ('strided_view', big[::2, ::2])]
+    if X.ndim == 2:
+        st = np.zeros(X.shape + (3,), dtype=X.dtype)
+        st[:, :, 1] = X
+        variants.append(('stack_slice', st[:, :, 1]))
+        variants.append(('transposed_twice', np.ascontiguousarray(X.T).T))
+    for lname, V in variants:
+        try:
+            got = f(V, *args, **kw())
+        except CaseTimeout:
+            raise
+        except Exception as e:  # noqa
+            REC.check(prop, fname, 'layout_independent', False, {'X': X, 'layout': lname, 'exception': repr(e)[:200], 'args': list(args)}, ('layout:' + lname,))
+            continue
+        REC.check(prop, fname, 'layout_independent', _same_struct(ref, got, rtol),
+                  {'X': X, 'layout': lname, 'c_contiguous_result': ref, 'result': got, 'args': list(args)}, ('layout:' + lname,))
